@@ -43,7 +43,7 @@ def normalizeHost(host):
                                     socket.IPPROTO_IP, 0)
     if not info:
         emsg = "Cannot resolve address for host '{0}'".format(host)
-        raise raeting.EstateError(emsg)
+        raise ValueError(emsg)
 
     host = info[0][4][0]
     return host
